@@ -1015,6 +1015,24 @@ class ComputeGraph(MultiDiGraph):
         import sympy as sp
         from sympy import Derivative, Function, Subs
 
+        # Chain-rule factors come as Subs(Derivative(f(_xi), _xi), _xi, arg).  They are resolved one by one first: an
+        # expression that still holds two such factors cannot be rebuilt by `replace` (sympy fails to order two Subs
+        # objects that differ only in their point), which happens as soon as a dependency passes through two edges.
+        if not getattr(self, '_resolving_subs', False):
+            self._resolving_subs = True
+            try:
+                for _ in range(8):
+                    subs_atoms = expr.atoms(Subs)
+                    if not subs_atoms:
+                        break
+                    new_expr = expr.xreplace({s: Subs(self._resolve_derivatives(s.expr), s.variables, s.point).doit()
+                                              for s in subs_atoms})
+                    if new_expr == expr:
+                        break
+                    expr = new_expr
+            finally:
+                self._resolving_subs = False
+
         # identity(x) = x  →  d/dx = 1
         expr = expr.replace(
             lambda e: isinstance(e, Derivative) and e.expr.func.__name__ == 'identity',
